@@ -320,7 +320,7 @@ def shard(ctx):
     k = 0
     for arity in range(1, 9):
         for hpos in range(arity):
-            for variant in range(ctx.pick(6, 40)):
+            for variant in range(ctx.pick(6, 200)):
                 k += 1
                 if not ctx.mine(k):
                     continue
@@ -351,7 +351,7 @@ def shard(ctx):
                 params = {'bare_bin_labels': True} if variant % 2 else {}
                 run_binarize(ctx, {'kind': 'binarize', 'spec': spec,
                                    'params': params, 'nocoindex': table}, rng)
-    for i in ctx.indices(ctx.pick(4000, 120000)):
+    for i in ctx.indices(ctx.pick(4000, 1000000)):
         rng = ctx.rng('bin', i)
         n = rng.randint(1, 24)
         spec = gen.tree(rng, n, pools, max_arity=rng.choice([2, 3, 5, 8]),
@@ -366,7 +366,7 @@ def shard(ctx):
                            'nocoindex': table}, rng)
         if i < 2:
             ctx.sample({'binarize': model.show(model.from_spec(spec['root']), '')})
-    for i in ctx.indices(ctx.pick(4000, 120000)):
+    for i in ctx.indices(ctx.pick(4000, 1000000)):
         rng = ctx.rng('chain', i)
         spec = chain_tree(rng, pools)
         run_collapse(ctx, {'kind': 'collapse', 'spec': spec}, rng)
